@@ -466,3 +466,8 @@ Definition run_C15 (op : N) (alns : list aln) (n : nat) (t : str) (fts : list ft
   | _ => let l := map (fun x => multi_ft (fst x) (snd x)) mf in
          VL [VB (wf_fts l); show_res (fts2row l)]
   end.
+
+(* histories (state-independence stream): the model is pure, so a history is the list of the single results *)
+Definition hist_join (l : list val) : val :=
+  VL [VB (forallb (fun v => match v with VL [VB b; _] => b | _ => false end) l);
+      VL (map (fun v => match v with VL [_; r] => r | _ => VNone end) l)].
